@@ -2,8 +2,10 @@ import LokiModel.Props.C32
 /-!
 # C32 — witnesses of open defects of the unchanged code (non-gating)
 
-Each statement below is true of the model because the model mirrors the current code; a repair of the code makes it
-false (and the correspondence check then forces the model to follow).
+The `…_witness` statements are true of the model because the model mirrors the current code; a repair of the code makes
+them false (and the correspondence check then forces the model to follow).  The `…_repaired` statements record the
+behaviour after the fix: commits 9f8cf55 (has_elseif), be169e3 (loops), 7abc3d8 (calls); they replace the witnesses of
+the former classes `dc-elseif-emptied`, `cp-loop-assigned-scalar`, `cp-call-not-invalidating`.
 -/
 namespace LokiModel.C32.Findings
 open LokiModel.Fir LokiModel.C32
@@ -15,12 +17,9 @@ def loopProg : List Stmt :=
    .doLoop "i" (.lit (.int 1)) (.lit (.int 3)) none
      [.assign (.idx "y" [.var "i"]) (.var "x"), .assign (.var "x") (.lit (.int 2))]]
 
-/-- what `ConstantPropagationTransformer` makes of it: `y(i) = 1` — the body is rewritten with the map from BEFORE the
-loop although the body assigns `x` (class `cp-loop-assigned-scalar`) -/
-theorem cp_loop_witness : (cpStmts ["y"] false loopProg []).map (·.1) = some
-    [.assign (.var "x") (.lit (.int 1)),
-     .doLoop "i" (.lit (.int 1)) (.lit (.int 3)) none
-       [.assign (.idx "y" [.var "i"]) (.lit (.int 1)), .assign (.var "x") (.lit (.int 2))]] := by
+/-- since be169e3 the body is visited with a map from which everything the loop assigns was removed: `y(i) = x` stays
+(before: `y(i) = 1`) -/
+theorem cp_loop_repaired : (cpStmts ["y"] loopProg []).map (·.1) = some loopProg := by
   rfl
 
 def loopState : St :=
@@ -40,28 +39,35 @@ theorem cp_loop_original : finalY (execStmts emptyProg 20 loopProg loopState) =
     some [some (.int 1), some (.int 2), some (.int 2)] := by
   rfl
 
-/-- the transformed body stores 1, 1, 1: constant propagation over all bodies (loops included) is NOT behaviour
-preserving for the unchanged code -/
-theorem cp_loop_transformed :
-    (match cpStmts ["y"] false loopProg [] with
+/-- the transformed program stores the same values -/
+theorem cp_loop_transformed_repaired :
+    (match cpStmts ["y"] loopProg [] with
      | some (ss', _) => finalY (execStmts emptyProg 20 ss' loopState)
-     | none => none) = some [some (.int 1), some (.int 1), some (.int 1)] := by
+     | none => none) = some [some (.int 1), some (.int 2), some (.int 2)] := by
   rfl
 
-/-- zero-trip loop with literal bounds: `x = 1; do i = 1, 0; x = 5; end do; z = x` becomes `… z = 5` (the second pass of
-`visit_Loop` records `x ↦ 5` without asking whether the loop runs at all) -/
-theorem cp_zero_trip_witness : (cpStmts [] false
+/-- zero-trip loop with literal bounds: `x = 1; do i = 1, 0; x = 5; end do; z = x` keeps `z = x` (before: `z = 5`) -/
+theorem cp_zero_trip_repaired : (cpStmts []
     [.assign (.var "x") (.lit (.int 1)),
      .doLoop "i" (.lit (.int 1)) (.lit (.int 0)) none [.assign (.var "x") (.lit (.int 5))],
      .assign (.var "z") (.var "x")] []).map (·.1) = some
     [.assign (.var "x") (.lit (.int 1)),
      .doLoop "i" (.lit (.int 1)) (.lit (.int 0)) none [.assign (.var "x") (.lit (.int 5))],
+     .assign (.var "z") (.var "x")] := by
+  rfl
+
+/-- a loop that certainly runs and cannot be left early hands its constants on: `do i = 1, 3; x = 5; end do; z = x`
+becomes `z = 5` -/
+theorem cp_loop_runs_once : (cpStmts []
+    [.doLoop "i" (.lit (.int 1)) (.lit (.int 3)) none [.assign (.var "x") (.lit (.int 5))],
+     .assign (.var "z") (.var "x")] []).map (·.1) = some
+    [.doLoop "i" (.lit (.int 1)) (.lit (.int 3)) none [.assign (.var "x") (.lit (.int 5))],
      .assign (.var "z") (.lit (.int 5))] := by
   rfl
 
 /-- SELECT CASE blocks are visited in sequence with one map: `x = 1; select case (k); case (1); x = 3; case (2); y = x;
 end select` becomes `… y = 3` (class `cp-select-sequential`) -/
-theorem cp_select_witness : (cpStmts [] false
+theorem cp_select_witness : (cpStmts []
     [.assign (.var "x") (.lit (.int 1)),
      .select (.var "k") [([1], [.assign (.var "x") (.lit (.int 3))]), ([2], [.assign (.var "y") (.var "x")])] []] []).map (·.1)
     = some
@@ -69,36 +75,37 @@ theorem cp_select_witness : (cpStmts [] false
      .select (.var "k") [([1], [.assign (.var "x") (.lit (.int 3))]), ([2], [.assign (.var "y") (.lit (.int 3))])] []] := by
   rfl
 
-/-- DO WHILE bodies are visited like straight-line code: `w = 0; do while (w < 2); w = w + 1; end do` becomes
-`… w = 1 …` (an endless loop) -/
-theorem cp_while_witness : (cpStmts [] false
+/-- DO WHILE: `w = 0; do while (w < 2); w = w + 1; end do` keeps the increment (the real mapper writes `1 + w`; before:
+`w = 1`, an endless loop) -/
+theorem cp_while_repaired : (cpStmts []
     [.assign (.var "w") (.lit (.int 0)),
      .while (.bin (.cmp .lt) (.var "w") (.lit (.int 2))) [.assign (.var "w") (.bin .add (.var "w") (.lit (.int 1)))]] []).map (·.1)
     = some
     [.assign (.var "w") (.lit (.int 0)),
-     .while (.bin (.cmp .lt) (.var "w") (.lit (.int 2))) [.assign (.var "w") (.lit (.int 1))]] := by
+     .while (.bin (.cmp .lt) (.var "w") (.lit (.int 2))) [.assign (.var "w") (.bin .add (.lit (.int 1)) (.var "w"))]] := by
   rfl
 
-/-- a CALL does not invalidate anything: `x = 1; call s(x); y = x` becomes `… y = 1` (class `cp-call-not-invalidating`) -/
-theorem cp_call_witness : (cpStmts [] false
+/-- a CALL invalidates the variables it is handed: `x = 1; call s(x); y = x` keeps `y = x` (before: `y = 1`) -/
+theorem cp_call_repaired : (cpStmts []
     [.assign (.var "x") (.lit (.int 1)), .callSub "s" [.var "x"], .assign (.var "y") (.var "x")] []).map (·.1) = some
-    [.assign (.var "x") (.lit (.int 1)), .callSub "s" [.var "x"], .assign (.var "y") (.lit (.int 1))] := by
+    [.assign (.var "x") (.lit (.int 1)), .callSub "s" [.var "x"], .assign (.var "y") (.var "x")] := by
   rfl
 
 /-- the literal is recorded without the conversion of the assignment: `r = 1; y = r` (real `r`) becomes `y = 1` — the
 map says "integer 1" where the state holds the real 1.0 (class `cp-literal-type-conversion`; with `k = 2.5` for an integer
 `k` the propagated value is plainly wrong: replayed on the real code by the oracle); `cpOK` rejects the program -/
 theorem cp_type_witness :
-    (cpStmts [] false [.assign (.var "r") (.lit (.int 1)), .assign (.var "y") (.var "r")] []).map (·.1) = some
+    (cpStmts [] [.assign (.var "r") (.lit (.int 1)), .assign (.var "y") (.var "r")] []).map (·.1) = some
       [.assign (.var "r") (.lit (.int 1)), .assign (.var "y") (.lit (.int 1))] ∧
     cpOK [] (fun _ => some .real)
       [.assign (.var "r") (.lit (.int 1)), .assign (.var "y") (.var "r")] [] = false := by
   constructor <;> rfl
 
-/-- `if (a) … else if (.false.) … end if`: the transformer raises instead of pruning (class `dc-elseif-emptied`) -/
-theorem dc_elseif_witness : dcCrash false
+/-- `if (p) … else if (.false.) … end if` is pruned to `if (p) … end if` (before 9f8cf55 the transformer raised) -/
+theorem dc_elseif_repaired : dcStmts false
     [.ifte (.var "p") [.assign (.var "x") (.lit (.int 1))]
-       [.ifte (.lit (.bool false)) [.assign (.var "x") (.lit (.int 2))] []]] = true := by
+       [.ifte (.lit (.bool false)) [.assign (.var "x") (.lit (.int 2))] []]] =
+    some [.ifte (.var "p") [.assign (.var "x") (.lit (.int 1))] []] := by
   rfl
 
 end LokiModel.C32.Findings
